@@ -465,6 +465,13 @@ def judge(prop, events, findings, hooks=None):
     res = Result()
     vio_fn = getattr(hooks, 'violation', None) or default_violation
     reject_ok = getattr(hooks, 'reject_ok', None) or (lambda e: False)
+    bykey = {}
+    for e in events:
+        bykey.setdefault(e['k'], []).append(e.get('st'))
+    for e in events:
+        if e.get('st') == 'rejected':
+            sts = [x for x in bykey[e['k']] if x not in ('skipped-isa',)]
+            e['all_rejected'] = all(x == 'rejected' for x in sts)
     for e in events:
         st = e.get('st')
         if st == 'na':
